@@ -70,6 +70,13 @@ def mk_and(a, b):
         return C(a[1] & b[1])
     if is_c(b) and a[0] == 'and' and is_c(a[2]):
         return mk_and(a[1], C(a[2][1] & b[1]))
+    if is_c(b) and a[0] == 'frombe':
+        # masking the assembled word masks each of its bytes (the cells are bytes: `& 0xff` is the identity on them)
+        cells = []
+        for k, c in enumerate(a[1]):
+            m = (b[1] >> (8 * (3 - k))) & M8
+            cells.append(c if m == M8 else mk_and(c, C(m)))
+        return ('frombe', tuple(cells))
     return ('and', a, b)
 
 
@@ -217,6 +224,8 @@ class Cells:
                 return v[3].get(el["f"], v[3].get(str(el.get("n", el["f"])), ('opaque', 'field')))
             if v[0] == 'tuple':
                 return v[1][el["f"]]
+            if v[0] == 't' and is_c(v[1]) and el["f"] == 0:
+                return v            # `.0` of a constant of a scalar newtype (VarInt::MAX.0)
             return ('opaque', 'field')
         if "variant" in el:
             return v
